@@ -207,6 +207,10 @@ namespace link_layer {
 
             if ( type == pdu_type_start )
             {
+                // a start fragment ends the reassembly of a previous, incomplete SDU
+                receive_buffer_used_ = 0;
+                receive_size_        = 0;
+
                 if ( body_size >= l2cap_header_size )
                 {
                     const std::uint16_t l2cap_size  = bluetoe::details::read_16bit( body.first );
@@ -241,7 +245,17 @@ namespace link_layer {
     template < class BufferedRadio, class ReceiveCallbacks, std::size_t MTUSize >
     void ll_l2cap_sdu_buffer< BufferedRadio, ReceiveCallbacks, MTUSize >::add_to_receive_buffer( const std::uint8_t* begin, const std::uint8_t* end )
     {
-        const std::size_t copy_size = std::min< std::size_t >( receive_size_, end - begin );
+        const std::size_t copy_size = end - begin;
+
+        // a fragment that is larger than the outstanding part of the announced SDU is malformed (as
+        // is a continuation without a start fragment): drop the SDU instead of writing behind it.
+        if ( copy_size > receive_size_ )
+        {
+            receive_buffer_used_ = 0;
+            receive_size_        = 0;
+
+            return;
+        }
 
         std::copy( begin, end, &receive_buffer_[ receive_buffer_used_ ] );
         receive_buffer_used_ += copy_size;
